@@ -12,7 +12,9 @@ CONFIGS = [(k, r) for k in KINDS for r in (True, False)]
 
 # owner-name pool (relative to the origin); special: OUT (not in the zone), LONG (too long
 # once made absolute)
-NAMES = ["@", "a", "b", "a.b", "c.a.b", "*", "*.a", "x" * 63, "d.c.a.b", "ns1"]
+FIT = ".".join(["f" * 63] * 3 + ["f" * 53])  # 246 octets relative: exactly 255 with the origin, the longest legal name
+OVER = ".".join(["f" * 63] * 3 + ["f" * 54])  # 247 octets relative: 256 with the origin, one octet too long
+NAMES = ["@", "a", "b", "a.b", "c.a.b", "*", "*.a", "x" * 63, "d.c.a.b", "ns1", FIT]
 OUT = "www.other."
 LONG = ".".join(["l" * 61] * 4)  # 248 octets relative, 257 > 255 with the origin
 
@@ -29,6 +31,7 @@ RDATA = {
         "ns1 hostmaster 2147483647 7200 900 1209600 300",
         "ns1 hostmaster 4294967295 7200 900 1209600 300",
         "ns2 hostmaster 5 7200 900 1209600 60",
+        "ns1 hostmaster 0 7200 900 1209600 300",
     ],
     "NSEC": ["a A NS", "b.example. A TXT"],
     "RRSIG:A": [
@@ -119,19 +122,21 @@ def first_violation_in_context(e):
 class Bench:
     """One real zone of a given kind/relativize setting plus argument builders."""
 
-    def __init__(self, kind, relativize, pruning_policy=None, zone=None):
+    def __init__(self, kind, relativize, pruning_policy=None, zone=None, rdclass="IN"):
         dns = _dns
         self.kind = kind
         self.relativize = relativize
+        self.rdclass = rdclass
         self.origin = dns.name.from_text(ORIGIN)
+        rc = dns.rdataclass.from_text(rdclass)
         if zone is not None:
             self.zone = zone
         elif kind == "plain":
-            self.zone = dns.zone.Zone(self.origin, relativize=relativize)
+            self.zone = dns.zone.Zone(self.origin, rc, relativize=relativize)
         elif kind == "versioned":
-            self.zone = dns.versioned.Zone(self.origin, relativize=relativize, pruning_policy=pruning_policy)
+            self.zone = dns.versioned.Zone(self.origin, rc, relativize=relativize, pruning_policy=pruning_policy)
         else:
-            self.zone = dns.btreezone.Zone(self.origin, relativize=relativize, pruning_policy=pruning_policy)
+            self.zone = dns.btreezone.Zone(self.origin, rc, relativize=relativize, pruning_policy=pruning_policy)
         self._rd_cache = {}
         self._rid_cache = {}
         self.handed_in = []  # rdataset / rrset objects the client passed to transactions
@@ -140,7 +145,7 @@ class Bench:
     def absname(self, spec):
         """Model key, or None when the name is not usable in this zone."""
         dns = _dns
-        if spec == "OUT" or spec == "LONG":
+        if spec in ("OUT", "LONG", "OVER"):
             return None
         if spec == "@":
             return self.origin
@@ -153,6 +158,8 @@ class Bench:
             return OUT if form.startswith("str") else n
         if spec == "LONG":
             return LONG if form.startswith("str") else dns.name.from_text(LONG, None)
+        if spec == "OVER":
+            return OVER if form.startswith("str") else dns.name.from_text(OVER, None)
         if form == "str_rel":
             return spec
         if form == "str_abs":
@@ -173,7 +180,8 @@ class Bench:
         return n
 
     # ---- rdata ----
-    def rdata(self, t, text, rdclass="IN"):
+    def rdata(self, t, text, rdclass=None):
+        rdclass = rdclass or self.rdclass
         key = (t, text, rdclass)
         rd = self._rd_cache.get(key)
         if rd is None:
@@ -197,7 +205,7 @@ class Bench:
     def rid_of(self, t, text):
         return self.rid(self.rdata(t, text))
 
-    def rdataset(self, t, ttl, texts, rdclass="IN"):
+    def rdataset(self, t, ttl, texts, rdclass=None):
         dns = _dns
         rds = dns.rdataset.from_rdata_list(ttl, [self.rdata(t, x, rdclass) for x in texts])
         if len(self.handed_in) < 200:
@@ -298,7 +306,7 @@ def apply_real(b, txn, op):
     if o in ("add", "replace"):
         fn = txn.add if o == "add" else txn.replace
         t = op["t"]
-        rdclass = op.get("cls", "IN")
+        rdclass = op.get("cls", b.rdclass)
         f = op["f"]
         if f == "rrset":
             rds = b.rdataset(t, op["ttl"], op["rd"], rdclass)
@@ -358,7 +366,7 @@ def apply_model(b, m, op):
         spec = op["n"]
     name = b.absname(spec)
     if o in ("add", "replace"):
-        if op.get("cls", "IN") != "IN":
+        if op.get("cls", b.rdclass) != b.rdclass:
             raise ModelError("ValueError")
         if op["f"] == "rdata" and op["ttl"] > refzone.MAX_TTL:
             raise ModelError("ValueError")
@@ -407,7 +415,7 @@ def gen_name(rng, allow_bad=True, names=None):
     if allow_bad and r < 0.03:
         return "OUT", rng.choice(["abs", "str_abs"])
     if allow_bad and r < 0.05:
-        return "LONG", rng.choice(["rel", "str_rel"])
+        return rng.choice(["LONG", "OVER", "OVER"]), rng.choice(["rel", "str_rel"])
     n = rng.choice(names or NAMES)
     return n, rng.choice(["rel", "abs", "str_rel", "str_abs", "rel", "abs", "rel_upper", "abs_upper"])
 
